@@ -22,6 +22,7 @@ CHECKS = {
     "C18": rust("model_checking", [("std", "c18", [])]),
     "C12": rust("model_checking", [("std", "c12", [])], [("std", "c12", []), ("nostd", "c12", [])]),
     "C13": rust("model_checking", [("std", "c13", [])], [("std", "c13", []), ("nostd", "c13", [])]),
+    "C11": rust("fault_enumeration", [("std", "c11", [])]),
     "C03": rust("model_checking", [("std", "c03", [])], [("std", "c03", []), ("nostd", "c03", [])]),
 }
 
